@@ -40,7 +40,10 @@ def build(desc):
     if desc["idx"] % 7 == 6:
         # handicap market: one selection on several lines (each line has its own ladder and queue)
         mp = dict(mp, handicaps="lines", n_runners=(2, 4))
-    case, snaps = simgen.gen_case(desc["seed"], desc["idx"], market_params=mp, script_params=sp, n_strategies=(1, 1) if lone else (1, 3), salt=6)
+    # every 6th case: the strategy trades two or three markets one after the other in one run (what it did in an earlier market has no
+    # bearing on its fills in a later one)
+    nmk = (2, 3) if desc["idx"] % 6 == 1 else (1, 1)
+    case, snaps = simgen.gen_case(desc["seed"], desc["idx"], market_params=mp, script_params=sp, n_strategies=(1, 1) if lone else (1, 3), n_markets=nmk, salt=6)
     case["config"] = {"simulated_strategy_isolation": rng.random() < 0.7}
     if desc["idx"] % 5 == 2:
         # explicit transactions executed more than once / kept open across updates (a request must still reach the exchange once)
